@@ -7,7 +7,7 @@
     asmjit/x86/x86func.cpp                init_call_conv, unpack_values, init_func_detail (default / Win64 / vectorcall)
     asmjit/arm/a64func.cpp                init_call_conv, init_func_detail (default / Apple)
 
-  The model follows the code *with the repairs fixes/C06-1 .. C06-5 applied* (AGENT_GUIDE: the model follows the
+  The model follows the code *with the repairs fixes/C06-1 .. C06-5 and C06-14 .. C06-16 applied* (AGENT_GUIDE: the model follows the
   repaired code).  Core-only imports: the driver links this file.
 -/
 namespace AsmjitVerif.CallConv
@@ -266,24 +266,25 @@ structure St where
   usedVec : Nat := 0
   deriving DecidableEq, Repr
 
-/-- one value of the default strategy of x86 `init_func_detail` (with fixes C06-1 and C06-4) -/
-def x86DefaultValue (cc : CallConv) (hasVA : Bool) (regSize : Nat) (s : St) (t : Nat) : St × FuncValue :=
+/-- one value of the default strategy of x86 `init_func_detail` (with fixes C06-1, C06-4, C06-14, C06-15, C06-16);
+    `wholeOnStack`: the value is half of a 64-bit integer that `__fastcall` / `__thiscall` pass on the stack as a whole -/
+def x86DefaultValue (cc : CallConv) (hasVA : Bool) (regSize : Nat) (wholeOnStack : Bool) (s : St) (t : Nat) : St × FuncValue :=
   if isInt t then
-    let regId := orderAt cc.gpOrder s.gpPos
+    let regId := if wholeOnStack then idBad else orderAt cc.gpOrder s.gpPos
     if regId ≠ idBad then
       ({ s with gpPos := s.gpPos + 1, usedGp := s.usedGp ||| (1 <<< regId) },
        .reg t (if t ≤ tUInt32 then rtGp32 else rtGp64) regId)
     else
       let size := max (tySize t) regSize
       ({ s with stackOffset := s.stackOffset + size }, .stack t s.stackOffset)
-  else if isFloat t || isVec t then
+  else if isFloat t || isVec t || (isMmx t && cc.hasFlag fMmxByXmm) then
     let regId := orderAt cc.vecOrder s.vecPos
-    let regId := if isFloat t then (if !cc.hasFlag fFloatsByVec then idBad else regId)
+    let regId := if isFloat t then (if !cc.hasFlag fFloatsByVec || t = tFloat80 then idBad else regId)
                  else (if hasVA && cc.hasFlag fVecByStackIfVA then idBad else regId)
     if regId ≠ idBad then
       ({ s with vecPos := s.vecPos + 1, usedVec := s.usedVec ||| (1 <<< regId) }, .reg t (vecTypeIdToRegType t) regId)
     else
-      let size := max (tySize t) regSize
+      let size := if t = tFloat80 then (if regSize = 8 then 16 else 12) else max (tySize t) regSize
       let off := if size ≥ 16 then alignUp s.stackOffset size else s.stackOffset
       ({ s with stackOffset := off + size }, .stack t off)
   else (s, .ofType t)
@@ -320,7 +321,8 @@ def packLoop (f : St → Nat → St × FuncValue) : St → List Nat → St × Li
 def x86ArgLoop (cc : CallConv) (hasVA : Bool) (regSize : Nat) : Nat → St → List Nat → St × List (List FuncValue)
   | _, s, [] => (s, [])
   | i, s, t :: ts =>
-    let f := if cc.strategy = 1 || cc.strategy = 2 then x86WinValue cc i else x86DefaultValue cc hasVA regSize
+    let wholeOnStack := decide ((unpack cc.arch t).length > 1) && (cc.id = 2 || cc.id = 4)
+    let f := if cc.strategy = 1 || cc.strategy = 2 then x86WinValue cc i else x86DefaultValue cc hasVA regSize wholeOnStack
     let (s1, p) := packLoop f s (unpack cc.arch t)
     let (s2, ps) := x86ArgLoop cc hasVA regSize (i + 1) s1 ts
     (s2, p :: ps)
